@@ -11,9 +11,10 @@ sys.path.insert(0, os.path.dirname(os.path.abspath(__file__)))
 import pgen  # noqa: E402  (worker `parser` owns pgen.py; read-only use)
 
 ID = 'C10'
-GEN_FILES = ['T_fmtspaces', 'T_pins_parser', 'T_pins_luawriter']
+GEN_FILES = ['T_fmtspaces', 'T_pins_parser', 'T_pins_luawriter', 'T_parser', 'T_lexer', 'T_pins_lexer', 'T_luanames', 'T_minifier',
+             'T_minifier_p8', 'T_minwiring_lua', 'T_minwiring_tool', 'T_minwiring_build']
 COQ_PROPERTY = 'theories/Properties/C10.vo'
-COQ_EXTRA = ['theories/Proofs/ParserPins.vo', 'theories/Proofs/AstWriterPins.vo']
+COQ_EXTRA = ['theories/Proofs/ParserPins.vo', 'theories/Proofs/AstWriterPins.vo', 'theories/Proofs/LexerPins.vo']
 MODEL = ('ExC10', 'c10_main.ml')
 MONITOR = ('MonC10', 'c10_mon_main.ml')
 ALPHABET = b' \t\n\r-/a'
@@ -52,9 +53,16 @@ PARTIAL = ('proved at program level (parser trees inside the writer domain of C0
            'corresponding places agree after canon_ws and the removal of blanks at line edges - reindent_equiv - are formatted to the '
            'same text): re-indentation invariance at TOKEN level; C10_idempotent_tokens (a token list inside that domain that is spelled '
            'as the reference formatting of some token list - formatted_as: same significant tokens, every run spelled as the pipeline '
-           'rewrites the run at the same place - is written back byte for byte): idempotence at TOKEN level; NOT proved: that lexing '
-           'two texts related by the byte-level same_modulo_line_edges gives reindent_equiv token lists, and that lexing luafmt output '
-           'gives a formatted_as token list (one Example each; needs the lexer on re-indented / written text); proved and '
+           'rewrites the run at the same place - is written back byte for byte): idempotence at TOKEN level; C10_idempotent: idempotence on TEXTS for the models (source of the reference dialect, lexer model, '
+           'parser model, writer model: the lexer model reads luafmt output into a formatted_as token list, gaps_tidy again; the parse of '
+           'the second pass and its domain - writable, no trailing separator - stay hypotheses: the parser on re-spaced tokens is not '
+           'proved); C10_reindent_bytes_partial: re-indentation invariance from source bytes with the relation between the two sources stated on '
+           'their REFERENCE tokens (ref_reindent_equiv: same code tokens of Spec/LuaLex.v, runs equal after canon_ws and the removal of '
+           'line-edge blanks); C10_lexer_trivia_tidy: trivia_tidy holds of all lexer output (C10_indent_text: C10_indent from bytes '
+           'without it); gaps_tidy does NOT hold of all lexer output (C10_gaps_tidy_not_for_every_source: a two-line block comment in '
+           'the middle of a line) and stays a hypothesis, as does codes_tidy (multi-line strings); NOT proved: '
+           'Spec.FmtShape.same_modulo_line_edges src1 src2 = Some true -> ref_reindent_equiv (the reference reader of Spec/FmtShape.v '
+           'against the reference lexer of Spec/LuaLex.v, and edge_norm against strip_line_edges o canon_ws); proved and '
            'unbounded: every run-level statement about the white-space pipeline, the whole-output clauses relative to an abstract '
            'chunk list (C10_*_partial)')
 ASSUMPTIONS = ['indentwidth is an integer (0-8 in the monitor domain); programs are those on which luafmt succeeds (C09 covers success)',
@@ -92,7 +100,13 @@ CLAIM = dict(
           "domain, are formatted to the same text; non-vacuity: two layouts of a nested program with a one-line if with else, comments, "
           "blank-line runs, tabs); C10_formatted_fixed and C10_idempotent_tokens (a token list inside the domain that is spelled as the "
           "reference formatting of some token list is written back byte for byte: formatting formatted code changes nothing, given "
-          "that the output re-lexes to such tokens); proved by re-running the walk induction with the counter and the token-stream depth state threaded "
+          "that the output re-lexes to such tokens); C10_idempotent (from source bytes, for the models: a byte string of the reference "
+          "dialect, lexed by the lexer model, parsed to the end inside the domain, no trailing separator, gaps_tidy: the text luafmt "
+          "writes is read by the lexer model into a token list that is formatted_as the input's and gaps_tidy again, and whenever the "
+          "parser model reads it to the end inside the domain luafmt writes the same text again; Proofs/FmtRelexIdem.v on top of the "
+          "re-lexing theorem of C09_same_code); C10_lexer_trivia_tidy, C10_indent_text, C10_lexer_reindent_equiv and "
+          "C10_reindent_bytes_partial (re-indentation invariance from source bytes for two sources whose reference token lists have the "
+          "same code tokens and runs equal modulo line-edge blanks; Proofs/FmtRelexReindent.v); proved by re-running the walk induction with the counter and the token-stream depth state threaded "
           "(Proofs/TokenDepthProofs.v, WriterCursorD.v, AstWriterDepth.v, FmtLineEnd.v). Regex sources, guards, replacement expressions, order, and the whole function text "
           "are regenerated from lua.py on every run and pinned. Tie: the extracted model equals the real method on ALL runs of length "
           "<= 5 (thorough 6) over {space,tab,\\n,\\r,-,/,a} x 4 positions x 3 (width,depth), on random long runs, and on every "
